@@ -108,6 +108,15 @@ def gen_bt_dtypes(repo):
     return m
 
 
+def gen_digital_state(repo):
+    m = T.Module(f"{repo}/src/nitypes/waveform/_digital/_state.py", "Gen.DigitalState")
+    m.translate_table_constants(["_CHAR_TABLE", "_STATE_TEST_TABLE"])
+    m.translate_int_enum("DigitalState")
+    fn = m.find_func("DigitalState", "test")
+    m.translate_function("DigitalState.test", fn, "test", [("state1", "int"), ("state2", "int")])
+    return m
+
+
 MODULES = [
     # (output file, builder, dependencies by output name)
     ("TimeValueTuple", lambda repo, deps: gen_time_value_tuple(repo), []),
@@ -115,6 +124,7 @@ MODULES = [
     ("DateTime", lambda repo, deps: gen_datetime(repo, deps["TimeValueTuple"], deps["TimeDelta"]),
      ["TimeValueTuple", "TimeDelta"]),
     ("BtDtypes", lambda repo, deps: gen_bt_dtypes(repo), []),
+    ("DigitalState", lambda repo, deps: gen_digital_state(repo), []),
 ]
 
 
